@@ -283,15 +283,14 @@ example : (matchLoop idle 50 demoEngine 0 demoCandle (sel 0 demoEngine demoCandl
     = [.executed, .executed] := by decide +kernel
 example : (demoCandle.Valid) := by decide +kernel
 
-/-! ### known finding C02-F5 in the model: the negation of "no active order is left inside a chunk minute's range"
+/-! ### the former known finding C02-F5 (repaired in /repo by the `fix:` commit that hands the sort the jump-fixed minutes)
 
-The fast simulator sorts the candidates of a chunk along the RAW minutes and matches them on the jump-fixed ones.
-The witness of the finding, in the model: a 3m chunk whose second minute opens at 100.125 after a close of 100.375
-and rises to 100.75; a buy LIMIT at 100.125 and a buy STOP at 100.5 rest.  The raw path of that minute starts AT the
-LIMIT's price, so the sort puts the LIMIT first; the fixed path (from 100.375 up to 100.75, then down) reaches the STOP
-first.  The chunk ends with the LIMIT executed and the STOP still active although the fixed minute contains 100.5 —
-`chunk_minute_no_resting_hit` only speaks about what the loop's own candidate list leaves, and this is why the
-composition `resting_order_never_left_in_range` is a theorem for the normal simulator only. -/
+Before the repair the fast simulator sorted the candidates of a chunk along the RAW minutes and matched them on the
+jump-fixed ones.  The witness: a 3m chunk whose second minute opens at 100.125 after a close of 100.375 and rises to
+100.75; a buy LIMIT at 100.125 and a buy STOP at 100.5 rest.  The raw path of that minute starts AT the LIMIT's price,
+so the old sort put the LIMIT first and the STOP — which the fixed path (from 100.375 up to 100.75, then down) reaches
+first — was jumped over and left active inside the minute's range.  With the sort on the jump-fixed minutes
+(`fixChunk`) both are filled. -/
 
 /-- futures, one 3m route, a LIMIT buy at 100.125 and a STOP buy at 100.5 resting -/
 def f5Engine : Engine Unit :=
@@ -309,11 +308,10 @@ def f5Chunk : List Candle :=
 example : candleIncludesPrice (fixJump ⟨1080000, 803/8, 803/8, 803/8, 803/8, 1⟩ ⟨1140000, 801/8, 100, 403/4, 399/4, 1⟩) (201/2) := by
   decide +kernel
 
-/-- … and yet the chunk ends, without an error, with the LIMIT executed and the STOP still active and registered -/
-theorem fast_chunk_leaves_order_in_range_witness :
+/-- … and the chunk now ends, without an error, with BOTH orders executed (regression witness of C02-F5) -/
+theorem fast_chunk_fills_both_regression :
     (simulateChunk idle 50 f5Engine 0 f5Chunk).err = none ∧
-    (simulateChunk idle 50 f5Engine 0 f5Chunk).w.orders.map (·.status) = [.executed, .active] ∧
-    1 ∈ Acc.getD (simulateChunk idle 50 f5Engine 0 f5Chunk).w.active 0 := by
+    (simulateChunk idle 50 f5Engine 0 f5Chunk).w.orders.map (·.status) = [.executed, .executed] := by
   decide +kernel
 
 end C02
